@@ -110,3 +110,16 @@ def relayed_requests(result, host):
 def short(x, n=300):
     s = repr(x)
     return s if len(s) <= n else s[:n] + "..."
+
+
+def gen_consts_or_search(ctx):
+    """vplib.gen_consts, but a translator failure (a construct it parses is gone) does not end the run: the caller goes on with the
+    end-to-end run and the property predicate to look for a concrete failing input; the proofs then count as not discharged.
+    Returns None, or the translator's message."""
+    import vplib
+    try:
+        vplib.gen_consts(ctx)
+        return None
+    except vplib.Violation as v:
+        ctx.log("constants translator failed; searching for a failing input with the property predicate: %s" % str(v)[:300])
+        return "constants translator failed (%s): no theorem is re-proved against the current sources" % str(v)[:500]
